@@ -9,7 +9,7 @@ from ..cases import Interp, Lin, Obj, Oracle, RankOracle, Sym, Undecided, weak_o
 from ..cfg import CFG, EXIT
 from ..core import Ctx
 from ..model import AnalysisError, FuncInfo, canon, dotted, kwarg, norm, walk_no_nested
-from .common import assigned_value, else_part, enclosing, prog, resolve_local
+from .common import assigned_value, else_part, enclosing, expand_locals, prog, resolve_local
 
 TERMS = {"S": Lin.atom("S"), "E": Lin.atom("E"),
          "L": Lin.atom("pivot") - Lin.atom("dist"), "H": Lin.atom("pivot") + Lin.atom("dist")}
@@ -194,41 +194,80 @@ def rule_sample(ctx: Ctx):
         return NotImplemented
     it = Interp(NoOracle(), {uvar: Sym("unit", "unit"), PV: atoms["pivot"], b_inf: atoms["binf"], b_sup: atoms["bsup"]}, attr=attr)
 
-    ifs = [s for s in ul.body if isinstance(s, ast.If)]
-    if len(ul.body) != 1 or len(ifs) != 1:
-        ctx.undecided("R-C16-2", f, ul, "unit loop body is not a single wrap test")
+    # the unit loop body is evaluated once per outcome of the wrap test: local assignments are substituted, the test picks the branch
+    import copy as _copy
+
+    class _Subst(ast.NodeTransformer):
+        def __init__(self, env_):
+            self.env_ = env_
+
+        def visit_Name(self, n):
+            if isinstance(n.ctx, ast.Load) and n.id in self.env_:
+                return _copy.deepcopy(self.env_[n.id])
+            return n
+
+    wrap_ifs = [s for s in ast.walk(ul) if isinstance(s, ast.If)]
+    if len(wrap_ifs) != 1:
+        ctx.undecided("R-C16-2", f, ul, f"unit loop body contains {len(wrap_ifs)} tests, one wrap test expected (not a verdict)")
         return
-    wi = ifs[0]
+    wi = wrap_ifs[0]
+
+    class _Shape(Exception):
+        pass
+
+    def run_units(stmts, wrapped: bool, lenv: dict, adds: list, tests: list):
+        for st in stmts:
+            if isinstance(st, ast.Assign) and len(st.targets) == 1 and isinstance(st.targets[0], ast.Name):
+                lenv[st.targets[0].id] = _Subst(lenv).visit(_copy.deepcopy(st.value))
+            elif st is wi:
+                tests.append(_Subst(lenv).visit(_copy.deepcopy(st.test)))
+                run_units(st.body if wrapped else st.orelse, wrapped, lenv, adds, tests)
+            elif isinstance(st, ast.Expr) and isinstance(st.value, ast.Call) and isinstance(st.value.func, ast.Attribute) and st.value.func.attr == "add":
+                c = _Subst(lenv).visit(_copy.deepcopy(st.value))
+                adds.append((c, st.value))
+            else:
+                raise _Shape(norm(st)[:80])
     try:
-        t = wi.test
+        outcomes = {}
+        tests_seen: list = []
+        for wrapped in (True, False):
+            adds: list = []
+            run_units(ul.body, wrapped, {}, adds, tests_seen)
+            outcomes[wrapped] = adds
+    except _Shape as e:
+        ctx.undecided("R-C16-2", f, ul, f"unit loop body contains `{e}`: shape not recognised (not a verdict)")
+        return
+    try:
+        if not tests_seen:
+            raise Undecided("the wrap test is not on the path of the unit loop body")
+        t = tests_seen[0]
         if not (isinstance(t, ast.Compare) and len(t.ops) == 1):
             raise Undecided("wrap condition is not a single comparison")
         l, r = it.ev(t.left), it.ev(t.comparators[0])
         d = l - r if isinstance(t.ops[0], (ast.Gt, ast.GtE)) else r - l
         want = atoms["s"] + atoms["pivot"] - atoms["bsup"]
         strict = isinstance(t.ops[0], (ast.Gt, ast.Lt))
-        ctx.check(d == want and strict, "R-C16-2", f, t, "wrap exactly when start + pivot > upper bound",
+        ctx.check(d == want and strict, "R-C16-2", f, wi.test, "wrap exactly when start + pivot > upper bound",
                   bad_detail=f"wrap condition is `{norm(t)}`; documented rule: start + pivot > bound_sup", key="wrap-condition")
         length = atoms["bsup"] - atoms["binf"]
-        for branch, shift, nm in ((wi.body, atoms["pivot"] - length, "wrapped"), (wi.orelse, atoms["pivot"], "plain")):
-            adds = [n for s in branch for n in ast.walk(s) if isinstance(n, ast.Call) and isinstance(n.func, ast.Attribute)
-                    and n.func.attr == "add"]
-            if len(adds) != 1 or len(branch) != 1:
+        for wrapped, shift, nm in ((True, atoms["pivot"] - length, "wrapped"), (False, atoms["pivot"], "plain")):
+            adds = outcomes[wrapped]
+            if len(adds) != 1:
                 ctx.bad("R-C16-2", f, wi, f"{nm} branch must add exactly one unit per source unit (found {len(adds)})", key=f"{nm}-add")
                 continue
-            a = adds[0]
+            a, a_orig = adds[0]
             args = list(a.args) + [k.value for k in a.keywords]
-            seg = resolve_local(node, args[1]) if len(args) >= 2 else None
+            seg = args[1] if len(args) >= 2 else None
             if not (isinstance(seg, ast.Call) and dotted(seg.func) == "Segment" and len(seg.args) == 2):
-                ctx.undecided("R-C16-2", f, a, "second argument of add is not Segment(a, b)")
+                ctx.undecided("R-C16-2", f, a_orig, "second argument of add is not Segment(a, b)")
                 continue
             x, y = it.ev(seg.args[0]), it.ev(seg.args[1])
             ok = (x - atoms["s"]) == shift and (y - atoms["e"]) == shift
-            ctx.check(ok, "R-C16-2", f, a, f"{nm}: start and end both shifted by {shift}: same duration, single pivot",
+            ctx.check(ok, "R-C16-2", f, a_orig, f"{nm}: start and end both shifted by {shift}: same duration, single pivot",
                       bad_detail=f"{nm} branch: start shifted by {x - atoms['s']}, end by {y - atoms['e']}; expected both {shift}",
                       key=f"{nm}-shift")
             lab = kwarg(a, "annotation") or (args[2] if len(args) >= 3 else None)
-            ctx.check(lab is not None and norm(lab) == f"{uvar}.annotation", "R-C16-2", f, a, f"{nm}: label copied from the source unit",
+            ctx.check(lab is not None and norm(lab) == f"{uvar}.annotation", "R-C16-2", f, a_orig, f"{nm}: label copied from the source unit",
                       bad_detail=f"{nm} branch does not copy the unit's label", key=f"{nm}-label")
             new_annot = norm(args[0])
             tgt = norm(a.func.value)
@@ -310,9 +349,11 @@ def rule_sample(ctx: Ctx):
             chosen = [norm(x.targets[0]) for x in walk_no_nested(g.node) if isinstance(x, ast.Assign) and isinstance(x.value, ast.Call)
                       and norm(x.value.func) in ("np.random.choice", "numpy.random.choice")]
             sv_ = chosen[0] if chosen else "?"
-            int_ok = bool(rb) and isinstance(rb[0].value, ast.Call) and dotted(rb[0].value.func) == "int" and \
-                f"random.uniform({sv_}.start, {sv_}.end)" in norm(rb[0].value)
-            float_ok = bool(ro) and norm(ro[0].value) in (f"np.random.uniform({sv_}.start, {sv_}.end)",)
+            rbv = expand_locals(g.node, rb[0].value, skip=(sv_,)) if rb else None
+            rov = expand_locals(g.node, ro[0].value, skip=(sv_,)) if ro else None
+            int_ok = bool(rb) and isinstance(rbv, ast.Call) and dotted(rbv.func) == "int" and \
+                f"random.uniform({sv_}.start, {sv_}.end)" in norm(rbv)
+            float_ok = bool(ro) and norm(rov) in (f"np.random.uniform({sv_}.start, {sv_}.end)",)
     ctx.check(int_ok, "R-C16-3", g, None, "integer-pivot mode returns int(uniform draw inside the chosen segment)",
               bad_detail="integer-pivot mode does not return a whole number", construct="int_pivot branch", key="int-mode")
     ctx.check(float_ok, "R-C16-3", g, None, "float-pivot mode returns the uniform draw inside the chosen segment",
